@@ -207,7 +207,7 @@ fn interned_read_case<const R: usize>(d: Durability) {
     std::mem::forget(local);
 }
 
-// @verif prop=C01,C09 obl=O6 tier=quick bounds="type with collection disabled (revisions = usize::MAX), every durability (symbolic); symbolic current revision < 2^40 and prior reader stamp"
+// @verif prop=C01,C09,C03 obl=O6 tier=quick bounds="type with collection disabled (revisions = usize::MAX), every durability (symbolic); symbolic current revision < 2^40 and prior reader stamp"
 // @+ encodes="report_tracked_read_if_reusable::<VInt<{usize::MAX}>>, is_reusable, ZalsaLocal::report_tracked_read_revision, ZalsaLocal::push_query, ZalsaLocal::active_query"
 /// C01-O6: reading a non-reusable interned value still raises the reader's changed_at to the current revision
 /// (its id may be the product of an earlier reuse) and does not lower the reader's durability (immortal type).
@@ -218,7 +218,7 @@ fn c01_o6_interned_read_immortal() {
     interned_read_case::<{ usize::MAX }>(any_durability());
 }
 
-// @verif prop=C01,C09 obl=O6 tier=quick bounds="collectable type (revisions = 3) with each of the durabilities MEDIUM, HIGH, NEVER_CHANGE (enumerated concretely: a symbolic durability drags the edge-recording hash set into the formula)"
+// @verif prop=C01,C09,C03 obl=O6 tier=quick bounds="collectable type (revisions = 3) with each of the durabilities MEDIUM, HIGH, NEVER_CHANGE (enumerated concretely: a symbolic durability drags the edge-recording hash set into the formula)"
 // @+ encodes="report_tracked_read_if_reusable::<VInt<3>>, is_reusable, ZalsaLocal::report_tracked_read_revision"
 /// C01-O6: the same for values of a collectable type interned under a durability above LOW.
 #[kani::proof]
@@ -248,7 +248,7 @@ fn value_of<const R: usize>(id: Id, last_interned_at: usize, d: Durability, type
     }
 }
 
-// @verif prop=C07,C09 obl=O2 tier=quick bounds="one page-backed interned value (REVS = 3); symbolic stored and queried generation (full u32), symbolic last_interned_at <= now, arbitrary INV runtime state"
+// @verif prop=C07,C09,C03 obl=O2 tier=quick bounds="one page-backed interned value (REVS = 3); symbolic stored and queried generation (full u32), symbolic last_interned_at <= now, arbitrary INV runtime state"
 // @+ encodes="interned::IngredientImpl::<VInt<3>>::maybe_changed_after, IngredientImpl::new, new_shards, RevisionQueue::record, Table::get, Table::push_page, PageView::allocate, Id::generation"
 /// C07-O2/C09-O4: a dependency on an interned id is reported Changed iff the slot's generation has moved past the
 /// id's (the slot was reused); otherwise the value is re-validated: last_interned_at := now, so it is not stale now.
